@@ -55,7 +55,11 @@ func (rw *readWriter) Write(p []byte) (n int, err error) {
 }
 
 func (rw *readWriter) Close() error {
+	// Set the flag under the reader's mutex: a reader that has just seen it
+	// unset is then already waiting when the broadcast is sent.
+	rw.m.Lock()
 	rw.closed.Store(true)
+	rw.m.Unlock()
 	rw.cv.Broadcast()
 	rw.Wait()
 
